@@ -102,8 +102,16 @@ Scenarios ==
     \cup [kind : {"stat"}, stat : {"king", "r0", "r1", "f2", "fst", "pi_xy"}, shape : {<<1, 9>>, <<9, 1>>, <<3, 3>>, <<9>>, <<3, 3, 1>>, <<1, 3, 3>>, <<3, 4>>, <<4, 3>>}]
     \* empty spectra whose zero-length axis is not the last one, next to absurdly long axes: every tool and option on them
     \cup [kind : {"shapeop"}, shape : AbsurdShapes, format : {"text", "npy"}, op : ShapeOps]
+    \* an npy header that cannot be parsed and holds a two-byte character at byte offset k (version 3.0 headers are UTF-8): whatever
+    \* is quoted, cut or padded in the diagnostic, no offset may matter
+    \cup [kind : {"npyjunk"}, k : 0..130, version : {1, 2, 3}]
+    \* axis lists that are wrong whatever the spectrum holds - a duplicate, an axis that does not exist, every axis - on EMPTY
+    \* spectra as well as on ordinary ones: the request is refused before anything is computed
+    \cup [kind : {"badaxes"}, shape : {"0/3", "2/0/3", "3/0", "0/0", "3/4", "2/3/2"}, format : {"text", "npy"},
+          op : {<<"-m", "0,0">>, <<"-m", "7">>, <<"-m", "0,1,2">>, <<"-M", "9">>, <<"-m", "1,0,1">>, <<"-m", "3">>}]
     \* one population per sample for so many samples that the spectrum (3^n cells) cannot be addressed: a request error
-    \cup [kind : {"manypops"}, n : {40, 45, 64}, project : BOOLEAN]
+    \* (with a projection to one or two individuals per population the OUTPUT is small and the request is fine)
+    \cup [kind : {"manypops"}, n : {40, 45, 64}, project : {"no", "same", "tiny"}]
     \* --threads at and beyond any sensible bound, on every container
     \cup [kind : {"threads"}, t : ThreadCounts, container : {"vcf", "vcf.gz", "bcf", "rawbcf"}]
 
@@ -124,7 +132,9 @@ StatDomain(stat, sh) ==
 
 Expect(s) ==
     CASE s.kind = "stat" -> StatDomain(s.stat, s.shape)
-      [] s.kind = "manypops" -> "err"
+      [] s.kind = "manypops" -> IF s.project = "tiny" THEN "ok" ELSE "err"
+      [] s.kind = "badaxes" -> "err"
+      [] s.kind = "npyjunk" -> "err"
       [] s.kind = "threads" -> "ok"            \* any --threads value behaves like any other (C12)
       [] OTHER -> "ok_or_err"
 
